@@ -8,18 +8,19 @@ import (
 
 // GenCfg is the per-run (swarm) configuration of the geometry generator.
 type GenCfg struct {
-	Types     []string // allowed types
-	Layouts   []int    // allowed layout numbers
-	MaxCoords int      // cap on coordinates per innermost list
-	MaxParts  int      // cap on parts per level
-	MaxDepth  int      // collection nesting
-	PEmpty    float64  // probability that a component is empty
-	FloatMode int      // 0 small, 1 any bits, 2 finite (no NaN/Inf)
-	SRIDMode  int      // 0 none, 1 interesting values
-	MixLayout bool     // collection members may differ in layout
-	ClosedRings bool   // rings are closed with >= 4 points when non-empty
-	ExactParts  int    // when > 0: most part lists have exactly this many parts (count classes around powers of two)
-	ExactCoords int    // when > 0: most coordinate lists have exactly this many coordinates
+	Types        []string // allowed types
+	Layouts      []int    // allowed layout numbers
+	MaxCoords    int      // cap on coordinates per innermost list
+	MaxParts     int      // cap on parts per level
+	MaxDepth     int      // collection nesting
+	PEmpty       float64  // probability that a component is empty
+	FloatMode    int      // 0 small, 1 any bits, 2 finite (no NaN/Inf)
+	SRIDMode     int      // 0 none, 1 interesting values
+	MixLayout    bool     // collection members may differ in layout
+	ClosedRings  bool     // rings are closed with >= 4 points when non-empty
+	ShareMembers bool     // a collection may hold one member object twice (for properties that only read what they built)
+	ExactParts   int      // when > 0: most part lists have exactly this many parts (count classes around powers of two)
+	ExactCoords  int      // when > 0: most coordinate lists have exactly this many coordinates
 }
 
 // SwarmCfg draws a generator configuration.
@@ -127,7 +128,15 @@ func (c GenCfg) coords(r *prng.Rand, l int, ring bool) []Coord {
 		for len(out) < 3 {
 			out = append(out, c.coord(r, l))
 		}
-		out = append(out, append(Coord(nil), out[0]...))
+		last := append(Coord(nil), out[0]...)
+		if len(last) > 2 && r.Chance(0.2) {
+			// closed where it matters (X and Y); height or measure of the
+			// closing coordinate are its own (a measure runs on along the ring)
+			for i := 2; i < len(last); i++ {
+				last[i] = c.float(r)
+			}
+		}
+		out = append(out, last)
 	}
 	return out
 }
@@ -245,6 +254,13 @@ func (c GenCfg) Gen(r *prng.Rand, t string, l int, depth int) *Geom {
 			cl := l
 			if c.MixLayout && r.Chance(0.4) {
 				cl = c.Layouts[r.Intn(len(c.Layouts))]
+			}
+			if c.ShareMembers && len(m.G) > 0 && r.Chance(0.08) {
+				k := 1 + r.Intn(len(m.G))
+				dup := m.G[k-1].Clone()
+				dup.Same = k
+				m.G = append(m.G, dup)
+				continue
 			}
 			m.G = append(m.G, in.Gen(r, ct, cl, depth+1))
 		}
